@@ -708,6 +708,7 @@ func genC14(ctx *fw.Ctx) []fw.Case {
 		cases = append(cases, fw.Case{ID: fmt.Sprintf("long/%d", i), Run: func(r *fw.Rec) { c14Long(r, i) }})
 	}
 	cases = append(cases, fw.Case{ID: "witness/renumbering", Run: c14Witnesses})
+	cases = append(cases, fw.Case{ID: "witness/literal-built", Run: c14LiteralBuilt})
 	return cases
 }
 
@@ -911,4 +912,74 @@ func mdRenumbered(text string) string {
 	}
 	sort.Strings(defs)
 	return strings.Join(rest, "\n") + "\n" + strings.Join(defs, "\n")
+}
+
+// c14LiteralBuilt builds an alias, an ifunc and a phi as struct literals (the
+// documented alternative to the New* constructors: their Typ is a cache the
+// first Type() call fills) and prints the module, the entity and the function
+// once without and once after the observers Type() / String(): the texts must
+// agree, and printing must not depend on an observer having run before.
+func c14LiteralBuilt(r *fw.Rec) {
+	build := func() (*ir.Module, *ir.Alias, *ir.IFunc, *ir.InstPhi, *ir.Func) {
+		m := ir.NewModule()
+		g := m.NewGlobalDef("x", constant.NewInt(types.I32, 1))
+		a := &ir.Alias{Aliasee: g}
+		a.SetName("a")
+		m.Aliases = append(m.Aliases, a)
+		target := m.NewFunc("impl", types.Void)
+		target.NewBlock("").NewRet(nil)
+		res := m.NewFunc("res", types.NewPointer(target.Sig))
+		res.NewBlock("").NewRet(target)
+		i := &ir.IFunc{Resolver: res}
+		i.SetName("i")
+		m.IFuncs = append(m.IFuncs, i)
+		f := m.NewFunc("f", types.I32, ir.NewParam("c", types.I1))
+		entry, left, join := f.NewBlock("entry"), f.NewBlock("left"), f.NewBlock("join")
+		entry.NewCondBr(f.Params[0], left, join)
+		left.NewBr(join)
+		phi := &ir.InstPhi{Incs: []*ir.Incoming{ir.NewIncoming(constant.NewInt(types.I32, 1), entry), ir.NewIncoming(constant.NewInt(types.I32, 2), left)}}
+		phi.SetName("p")
+		join.Insts = append(join.Insts, phi)
+		join.NewRet(phi)
+		return m, a, i, phi, f
+	}
+	type view struct{ name, text string }
+	observe := func(withObservers bool) ([]view, string) {
+		var vs []view
+		p, msg, _ := fw.Guard(func() {
+			m, a, i, phi, f := build()
+			if withObservers {
+				_ = a.Type()
+				_ = i.Type()
+				_ = phi.Type()
+				_ = a.String()
+				_ = i.String()
+				_ = phi.String()
+			}
+			vs = append(vs, view{"alias.LLString", a.LLString()}, view{"ifunc.LLString", i.LLString()}, view{"phi.LLString", phi.LLString()}, view{"func.LLString", f.LLString()}, view{"module", m.String()})
+		})
+		if p {
+			return vs, firstLine(msg)
+		}
+		return vs, ""
+	}
+	r.Eval(1)
+	ref, refMsg := observe(true)
+	got, gotMsg := observe(false)
+	if refMsg != "" {
+		r.Inconclusive("literal-built module cannot be printed even after the observers: " + classify(refMsg))
+		return
+	}
+	if gotMsg != "" {
+		r.Violate(fw.Violation{Key: "observer-needed/literal-built", What: "a module with an alias, an ifunc and a phi built as struct literals prints after Type()/String() were called on them, and panics when they were not: " + gotMsg})
+		return
+	}
+	for k := range ref {
+		if ref[k].text != got[k].text {
+			r.Violate(fw.Violation{Key: "observer-changes-text/literal-built/" + ref[k].name, What: ref[k].name + " differs with and without prior observers: " + firstDiffLines(ref[k].text, got[k].text), Expected: ref[k].text, Observed: got[k].text})
+			return
+		}
+	}
+	r.Nontrivial("witness/literal-built")
+	r.Tally("witness", "holds:literal-built")
 }
